@@ -56,6 +56,9 @@ def taproot_witness(rng, mode):
     else:
         script = __import__("verif.specs", fromlist=["txwire"]).txwire.script_ser(
             [rand_bytes(rng, 32), 0xAC] if rng.random() < 0.7 else [0x51])
+        if "nonmin" in mode:                   # consensus-valid tapscript with a non-minimal push (OP_PUSHDATA1 for 1..75 bytes)
+            data = rand_bytes(rng, rng.randrange(1, 76))
+            script = b"\x4c" + bytes([len(data)]) + data + b"\x75" + script
         control = bytes([0xC0 | rng.randrange(2)]) + valid_xonly(rng) + rand_bytes(rng, 32 * rng.randrange(0, 3))
         w = [rand_bytes(rng, 64), script, control]
     if mode.endswith("annex"):
@@ -271,6 +274,10 @@ def gen_dispatch(kinds, types):
                 elif kind == "p2wsh":
                     ws = sp.txwire.script_ser(std_script(rng, "multisig"))
                     spk, ssig, wit = [0, sp.sha256(ws)], [], [b"", rand_bytes(rng, 71), ws]
+                elif kind == "p2wsh_nonmin":        # witness script with a non-minimal push: scriptCode is the raw witnessScript
+                    data = rand_bytes(rng, rng.randrange(1, 76))
+                    ws = b"\x4c" + bytes([len(data)]) + data + b"\x75" + sp.txwire.script_ser(std_script(rng, "multisig"))
+                    spk, ssig, wit = [0, sp.sha256(ws)], [], [b"", rand_bytes(rng, 71), ws]
                 elif kind == "p2sh_p2wsh":
                     ws = sp.txwire.script_ser(std_script(rng, "multisig"))
                     redeem = sp.txwire.script_ser([0, sp.sha256(ws)])
@@ -294,6 +301,14 @@ for _wn, (_ws, _wm) in (("key", ([SIG64], None)), ("key_annex", ([SIG64, ("bytes
              requires=["tx[1][0][4][1][0] == 0x50"] if _wn == "key_annex" else [],
              ensures=DISPATCH_ENS,
              gen=gen_dispatch(["p2tr:key", "p2tr:key+annex", "p2tr:script", "p2tr:script+annex"], TAPROOT_TYPES) if _wn == "key" else None)
+
+
+# scripts that are consensus-valid but not minimally encoded (outside "script codes of each standard kind"; kept apart so
+# that the standard-kind contracts stay readable): BIP143 scriptCode / BIP341 tapleaf are defined over the bytes in the witness
+contract(H + "dispatch#nonminimal_scripts", props=("C05",),
+         params={"tx": tx22_taproot([SIG64]), "spent": SP22_TR, "i": const(0), "hash_type": ("choice", TAPROOT_TYPES)},
+         ensures=DISPATCH_ENS, tiers=(),       # bounded only (script path needs ControlBlock.parse, see bip341#script_path)
+         gen=gen_dispatch(["p2wsh_nonmin", "p2tr:script_nonmin"], [0, 1]))
 
 
 # ---------------------------------------------------------------------------- history independence (two steps, symbolic)
